@@ -309,6 +309,10 @@ fn g5() -> Vec<Case> {
     out
 }
 
+pub fn cases_for_c04(thorough: bool) -> Vec<Case> {
+    g1(thorough).into_iter().chain(g2()).chain(g3()).chain(g5()).collect()
+}
+
 pub fn run(ctx: &Ctx) -> Report {
     let mut report = Report::new();
     let thorough = ctx.thorough();
